@@ -59,15 +59,22 @@ def stamping_rule(prog, run, rid):
                 pn = [q["name"] for q in f.params]
                 env = dict(st0)
                 env.update(dict(zip(pn, (alloc, OLD, size, file_, line, sep) if realloc else (alloc, size, file_, line, sep))))
+                if realloc:
+                    # the record of the block that is reallocated: made earlier, in another period and stage, at another place; larger
+                    # than the new size in one world (a shrinking realloc), smaller in the other
+                    env.update({"@%d.memory_" % OLDNODE: OLD, "@%d.size_" % OLDNODE: 1000 if size < 10 else 3, "@%d.allocator_" % OLDNODE: alloc, "@%d.number_" % OLDNODE: 1,
+                                "@%d.period_" % OLDNODE: per_["mem_leak_period_disabled"], "@%d.allocation_stage_" % OLDNODE: 0, "@%d.file_" % OLDNODE: 333000, "@%d.line_" % OLDNODE: 9, "@%d.next_" % OLDNODE: 0})
                 added, guards = [], []
                 ev = Evaluator(prog, f, env=env, calls={
                     "TestMemoryAllocator::alloc_memory": lambda *a_: M, "PlatformSpecificRealloc": lambda *a_: M, "TestMemoryAllocator::allocMemoryLeakNode": lambda *a_: N,
                     "TestMemoryAllocator::free_memory": lambda *a_: 0, "TestMemoryAllocator::freeMemoryLeakNode": lambda *a_: 0,
                     TAB + "::addNewNode": lambda *a_: (added.append(a_[-1]), 0)[1], TAB + "::removeNode": lambda *a_: OLDNODE,
+                    "TestMemoryAllocator::actualAllocator": lambda o=None, *a_: o, DET + "::validMemoryCorruptionInformation": lambda *a_: 1, DET + "::matchingAllocation": lambda *a_: 1,
                     DET + "::addMemoryCorruptionInformation": lambda *a_: (guards.append(a_[-1]), 0)[1], DET + "::checkForCorruption": lambda *a_: 0})
                 ev.heap_mode = True
+                ev.pass_object = True
                 ev.inline = DINL - set(ev.calls)
-                ev.optional_stubs = {DET + "::addMemoryCorruptionInformation", DET + "::checkForCorruption"}
+                ev.optional_stubs = {DET + "::addMemoryCorruptionInformation", DET + "::checkForCorruption", "TestMemoryAllocator::actualAllocator", DET + "::validMemoryCorruptionInformation", DET + "::matchingAllocation"}
                 try:
                     ev.run_blocks(f.entry, max_steps=3000)
                 except Unknown as u:
